@@ -17121,8 +17121,9 @@ type identifierOpts struct {
 func (p *parser) handleIdentifier(loc logger.Loc, e *js_ast.EIdentifier, opts identifierOpts) js_ast.Expr {
 	ref := e.Ref
 
-	// Substitute inlined constants
-	if p.options.minifySyntax && !p.currentScope.ContainsDirectEval {
+	// Substitute inlined constants (but not inside a "with" statement, where
+	// the identifier could also refer to a property of the target object)
+	if p.options.minifySyntax && !p.currentScope.ContainsDirectEval && !e.MustKeepDueToWithStmt {
 		if value, ok := p.constValues[ref]; ok {
 			p.ignoreUsage(ref)
 			return js_ast.ConstValueToExpr(loc, value)
